@@ -158,3 +158,23 @@ Example ex_history :
   call_history (lzmax86_encode (fun x => Ok x)) [ex_code; []; ex_code] =
   [lzmax86_encode (fun x => Ok x) ex_code; Ok []; lzmax86_encode (fun x => Ok x) ex_code].
 Proof. vm_compute. reflexivity. Qed.
+
+(* ---------------------------------------------------------------------------------------- *)
+(* Kernel ties: the x86 branch filter of pkg/compression/x86.go, as TRANSCRIBED FROM THE GO SOURCE on every run
+   (translator/Kernels.sh -> Gen/GoKernels.v), equal the functions of the model (Proofs/KernelTieBcj.v).
+   A change of one of these Go functions breaks the lemma. *)
+From Fiano Require Import Base.Bytes Base.GoInt Gen.GoKernels Proofs.KernelTieBcj.
+Local Open Scope Z_scope.
+
+Theorem C08_kernel_test86MSByte :
+  forall b, go_test86MSByte b = Bcj.test86 b.
+Proof. exact go_test86MSByte_tie. Qed.
+Print Assumptions C08_kernel_test86MSByte.
+
+Theorem C08_kernel_x86Convert :
+  forall enc ip st data, bytes_ok data = true -> zlen data < 2 ^ 61 ->
+  go_x86Convert (S (length data)) data (zlen data) ip st enc =
+  (do r <- Bcj.x86_convert enc ip st data; Ok (snd r, fst (fst r), snd (fst r))).
+Proof. exact go_x86Convert_tie. Qed.
+Print Assumptions C08_kernel_x86Convert.
+
